@@ -35,11 +35,11 @@ RULE = (
     "Sub-checks exh / exh3: 2 dependencies of 2 kinds on the 6-point grid 0..5 (run [0,5]), start-sorted arrays of "
     "<=3 rows per kind (all 15 intervals, overlaps and duplicates included) x every subset of the admissible "
     "interior points as cut set of each dependency. exh = both kinds <=2 rows: complete in the thorough tier "
-    "(722 500 cases), a seed-chosen 1/8 of the row-configuration pairs in the quick tier; exh3 = some kind has "
-    "3 rows (17.6 M cases): a seed-chosen 1/4 (thorough) or 1/400 (quick) of the row-configuration pairs, all "
+    "(722 500 cases), a seed-chosen 1/12 of the row-configuration pairs in the quick tier; exh3 = some kind has "
+    "3 rows (17.6 M cases): a seed-chosen 1/6 (thorough) or 1/600 (quick) of the row-configuration pairs, all "
     "chunkings of each chosen pair. exhz = <=1 row per kind, the same cut sets plus at most one zero-duration chunk "
-    "per dependency (leading [0,0], trailing [5,5] or a doubled cut): complete in the thorough tier, 1/8 of the "
-    "pairs in the quick tier. "
+    "per dependency (leading [0,0], trailing [5,5] or a doubled cut): complete in the thorough tier (474 721 cases), "
+    "1/12 of the pairs in the quick tier. "
     "A case is non-trivial when it has >=2 dependencies whose chunk edges differ and (a row of one "
     "kind straddles a chunk edge of a dependency of another kind, or some chunk is empty). distinct = distinct "
     "descriptor hashes."
@@ -156,11 +156,12 @@ def check(cond, clause, tags, detail):
 def st_cuts_dep(draw, rows, t1):
     cuts = draw(gen.st_cuts(rows, 0, t1))
     # a cut at the run end makes a trailing zero-duration chunk (the F14 region): gen.st_cuts draws it in about a
-    # quarter of the chunkings; every fourth chunking without one gets one on purpose, at either end
+    # quarter of the chunkings; on top of that 3 in 8 chunkings get a zero-duration chunk at the run end, the run
+    # start or both on purpose
     extra = draw(st.sampled_from(["", "", "", "", "", "trail", "lead", "both"]))
-    if "trail" in extra or extra == "both":
+    if extra in ("trail", "both"):
         cuts = cuts + [t1]
-    if "lead" in extra or extra == "both":
+    if extra in ("lead", "both"):
         cuts = [0] + cuts
     return cuts
 
@@ -234,9 +235,9 @@ def _st_chain(draw, names, kname, save_when, unit, origin):
 
 # ---- exhaustive small scope ----------------------------------------------------------------------
 EXH_T1 = 5
-EXH_QUICK = 8  # quick: 1/8 (seed-chosen) of the row-configuration pairs with <=2 rows per kind
-EXH3_QUICK = 400  # quick: 1/400 (seed-chosen) of the pairs in which a kind has 3 rows
-EXH3_THOROUGH = 4  # thorough: 1/4 (seed-chosen) of the pairs in which a kind has 3 rows
+EXH_QUICK = 12  # quick: 1/12 (seed-chosen) of the row-configuration pairs with <=2 rows per kind
+EXH3_QUICK = 600  # quick: 1/600 (seed-chosen) of the pairs in which a kind has 3 rows
+EXH3_THOROUGH = 6  # thorough: 1/6 (seed-chosen) of the pairs in which a kind has 3 rows
 
 
 def _start_sorted_orders(rows):
@@ -557,7 +558,7 @@ def run_case(d):
 
 
 SUBCHECKS = [
-    SubCheck("iter", run_case, strategy=st_case, quick=24000, thorough=600000),
+    SubCheck("iter", run_case, strategy=st_case, quick=16000, thorough=400000),
     SubCheck("exh", run_case, enumerate=enum_exh, exhaustive_in=("thorough",)),
     SubCheck("exh3", run_case, enumerate=enum_exh3, exhaustive_in=()),
     SubCheck("exhz", run_case, enumerate=enum_exhz, exhaustive_in=("thorough",)),
